@@ -49,7 +49,7 @@ static std::string dims(std::initializer_list<unsigned> d)
 static std::string shape(unsigned m, unsigned n) { return m == n ? "square" : m < n ? "wide" : "tall"; }
 
 // index-coded operands: small integers so that products are exact and a wrong index anywhere changes the result
-static a_real xval(unsigned i, unsigned j) { return (a_real)(1 + 16 * i + j); }
+static a_real xval(unsigned i, unsigned j) { return (a_real)(1 + 64 * i + j); }
 static const int PRIMES[36] = {2, 3, 5, 7, 11, 13, 17, 19, 23, 29, 31, 37, 41, 43, 47, 53, 59, 61, 67, 71, 73, 79, 83, 89, 97, 101, 103, 107, 109, 113, 127, 131, 137, 139, 149, 151};
 static a_real yval(unsigned i, unsigned j) { return (a_real)PRIMES[(i * 6 + j) % 36]; }
 
@@ -70,19 +70,29 @@ static void product(int v, unsigned r, unsigned k, unsigned c, int content, unsi
     if (content == 2) { for (unsigned i = 0; i < xr; ++i) { for (unsigned j = 0; j < xc; ++j) { X[(size_t)i * xc + j] = xval(i, j) + (a_real)0x1p-50L; } } for (auto &y : Y) { y = 1; } }
     if (content == 3) { for (unsigned i = 0; i < yr; ++i) { for (unsigned j = 0; j < yc; ++j) { Y[(size_t)i * yc + j] = yval(i, j) + (a_real)0x1p-50L; } } for (auto &x : X) { x = 1; } }
 #endif
+    if (content == 4)
+    {
+        // both operands are the same array (A*A^T, A^T*A and the like; the operands are read-only, so this is an ordinary call): one buffer,
+        // read through the two shapes
+        size_t nb = std::max(X.size(), Y.size());
+        X.assign(nb, 0);
+        for (size_t t = 0; t < nb; ++t) { X[t] = (a_real)(1 + (t * 7) % 31); }
+        Y = X;
+    }
     X0 = X;
     Y0 = Y;
     Out Z((size_t)r * c);
+    a_real *xp = X.data(), *yp = content == 4 ? X.data() : Y.data();
     switch (v)
     {
-    case 0: HYG(6, "mulmm", a_real_mulmm(E1(r), E1(k), E1(c), E1(X.data()), E1(Y.data()), E1(Z.p()))); break;
-    case 1: HYG(6, "mulTm", a_real_mulTm(E1(k), E1(r), E1(c), E1(X.data()), E1(Y.data()), E1(Z.p()))); break;
-    case 2: HYG(6, "mulmT", a_real_mulmT(E1(r), E1(c), E1(k), E1(X.data()), E1(Y.data()), E1(Z.p()))); break;
-    case 3: HYG(6, "mulTT", a_real_mulTT(E1(r), E1(k), E1(c), E1(X.data()), E1(Y.data()), E1(Z.p()))); break;
+    case 0: HYG(6, "mulmm", a_real_mulmm(E1(r), E1(k), E1(c), E1(xp), E1(yp), E1(Z.p()))); break;
+    case 1: HYG(6, "mulTm", a_real_mulTm(E1(k), E1(r), E1(c), E1(xp), E1(yp), E1(Z.p()))); break;
+    case 2: HYG(6, "mulmT", a_real_mulmT(E1(r), E1(c), E1(k), E1(xp), E1(yp), E1(Z.p()))); break;
+    case 3: HYG(6, "mulTT", a_real_mulTT(E1(r), E1(k), E1(c), E1(xp), E1(yp), E1(Z.p()))); break;
     }
     ++n_eval;
     n_nt += (r != c || k != r);
-    std::string in = "{\"fn\":\"" + std::string(MUL[v]) + "\",\"row\":" + std::to_string(r) + ",\"inner\":" + std::to_string(k) + ",\"col\":" + std::to_string(c) + ",\"content\":" + (content == 1 ? "\"unit-entries\"" : content == 0 ? "\"index-coded\"" : "\"beyond-double-precision\"") + "}";
+    std::string in = "{\"fn\":\"" + std::string(MUL[v]) + "\",\"row\":" + std::to_string(r) + ",\"inner\":" + std::to_string(k) + ",\"col\":" + std::to_string(c) + ",\"content\":" + (content == 1 ? "\"unit-entries\"" : content == 0 ? "\"index-coded\"" : content == 4 ? "\"both operands are the same array\"" : "\"beyond-double-precision\"") + "}";
     std::string cls = (r == c && c == k) ? "square" : (k == 1 ? "inner1" : "rectangular");
     if (!Z.guards_ok()) { R.viol(std::string(MUL[v]) + "|" + cls + "|overrun", std::string("a_real_") + MUL[v] + " wrote outside the " + std::to_string(r) + "x" + std::to_string(c) + " result array", in); return; }
     if (X != X0 || Y != Y0) { R.viol(std::string(MUL[v]) + "|" + cls + "|input-modified", std::string("a_real_") + MUL[v] + " modified an input operand", in); return; }
@@ -99,7 +109,7 @@ static void product(int v, unsigned r, unsigned k, unsigned c, int content, unsi
             }
             if (Z.p()[(size_t)i * c + j] != (a_real)want)
             {
-                R.viol(std::string(MUL[v]) + "|" + cls + "|value", std::string("a_real_") + MUL[v] + ": entry (" + std::to_string(i) + "," + std::to_string(j) + ") of the " + std::to_string(r) + "x" + std::to_string(c) + " product (inner " + std::to_string(k) + ") is " + std::to_string((double)Z.p()[(size_t)i * c + j]) + ", the definition gives " + std::to_string((double)want) + (content >= 2 ? " (they differ below double precision)" : ""), in);
+                R.viol(std::string(MUL[v]) + "|" + cls + "|value", std::string("a_real_") + MUL[v] + ": entry (" + std::to_string(i) + "," + std::to_string(j) + ") of the " + std::to_string(r) + "x" + std::to_string(c) + " product (inner " + std::to_string(k) + ") is " + std::to_string((double)Z.p()[(size_t)i * c + j]) + ", the definition gives " + std::to_string((double)want) + (content == 2 || content == 3 ? " (they differ below double precision)" : ""), in);
                 return;
             }
         }
@@ -164,7 +174,7 @@ int main(int argc, char **argv)
     vx::Args args(argc, argv);
     R.init(args);
     bool thorough = R.tier == "thorough";
-    unsigned D = thorough ? 12 : 9, S = thorough ? 20 : 12; // structure kernels up to 12x12 (20x20): blocked implementations have remainders
+    unsigned D = thorough ? 48 : 20, S = thorough ? 64 : 20; // blocked or unrolled implementations have remainders and panel boundaries (8, 16, 32): products up to 20^3 (48^3), structure kernels up to 20x20 (64x64)
     return vx::run_contained([&] {
         n_eval = n_nt = 0;
         uint64_t item = 0;
@@ -178,6 +188,7 @@ int main(int argc, char **argv)
                     for (int v = 0; v < 4; ++v)
                     {
                         product(v, r, k, c, 0, 0, 0, 0, 0);
+                        product(v, r, k, c, 4, 0, 0, 0, 0);
 #if A_SIZE_REAL + 0 == 16
                         product(v, r, k, c, 2, 0, 0, 0, 0);
                         product(v, r, k, c, 3, 0, 0, 0, 0);
